@@ -134,13 +134,18 @@ META = {
     "C14": {
         "bounds": "list_benches()/test_benches()/run_benches()/main() for every runner configuration (action, ignore flags, "
                   "sort direction symbolic) with run_action observed; run_bench_entry with Action::List on plain and args "
-                  "entries, ignore at entry and runner level and RunIgnored symbolic",
-        "outside": "the terse listing text and its agreement with a run on whole trees (run_tree_list vs run_tree: CBMC ran out "
-                   "of 24 GB in the design probes), feeding a path back as --exact, nextest/clap plumbing. By reading, "
-                   "run_tree_list evaluates `ignore` per node without inheritance or the runner override, so "
-                   "--list --format terse can disagree with a run under --ignored; not decided by this check",
-        "assumptions": COMMON_TRUST + ["Divan::run_action stubbed to a recorder (list_benches cell); TreePainter methods and "
-                                       "_print stubbed to recorders (list-arm cell)"],
+                  "entries, ignore at entry and runner level and RunIgnored symbolic; the real run_tree_list on "
+                  "module -> group -> benchmark with ignore unset/false/true on group and benchmark, option sets present or "
+                  "absent, --ignored/--include-ignored symbolic: a line is emitted iff should_run(effective ignore)",
+        "outside": "the terse listing text (Kani's std turns println! into a no-op, so a printed line is observed as control "
+                   "reaching the print statement: the push of the leaf's name onto the path), one line per runtime argument, "
+                   "trees deeper than 3 / several siblings, feeding a path back as --exact, the body of run_action "
+                   "(tree construction, sorting), nextest/clap plumbing",
+        "assumptions": COMMON_TRUST + ["Divan::run_action stubbed to a recorder (list_benches cell); TreePainter methods "
+                                       "stubbed to recorders (list-arm cell); String::push_str stubbed to a recorder "
+                                       "(terse-list cell: the path text is not built)",
+                                       "the runner-level `ignore` option is taken as unset in the terse-list cell: no public "
+                                       "builder or flag sets it"],
     },
     "C15": {
         "bounds": "BenchOptions::overwrite with every field of both sides independently unset/set (u32, Duration, bool, 3 "
@@ -353,8 +358,9 @@ CLAIMS.update({
     "C14": _claim(
         "For every runner configuration list_benches() selects a list action (the pinned tree selected Test: fixed) and the "
         "List arm of run_bench_entry never invokes the benchmark fn, the args runner or the statistics printer, painting the "
-        "entry as ignored iff its effective ignore says skip.",
-        "The terse listing text / agreement with a run on whole trees is not decided (CBMC memory); see the evidence."),
+        "entry as ignored iff its effective ignore says skip. The terse lister emits a line for a benchmark iff a run with "
+        "the same ignore flags executes it (ignore inherited from enclosing groups; found broken on the pinned tree: fixed).",
+        "The listing text, per-argument lines and the body of run_action are not decided; see the evidence."),
     "C15": _claim(
         "Per-field resolution decided for every combination of set/unset fields: overwrite algebra, three-level composition, "
         "the real run_tree descent over two nested groups, per-kind counters incl. Bencher::counter, ignore truth table, thread "
